@@ -54,6 +54,40 @@ func c18KeyString(identities bool, idx int) string {
 	return refage.Bech32Encode("age", refage.X25519Public(sc))
 }
 
+// c18QP returns a valid key string that ends in p and stays a valid Bech32
+// string (of a 33-byte payload) when a q is inserted before that p: the known
+// blind spot of the Bech32 checksum, which only the length check covers.
+var c18QPCache = map[bool][2]string{}
+
+func c18QP(identities bool) (valid, inserted string) {
+	if v, ok := c18QPCache[identities]; ok {
+		return v[0], v[1]
+	}
+	for i := 0; i < 200000; i++ {
+		sc := hx.PRG(uint64(20000+i), 32)
+		var k string
+		if identities {
+			k = refage.Bech32Encode("AGE-SECRET-KEY-", sc)
+		} else {
+			k = refage.Bech32Encode("age", refage.X25519Public(sc))
+		}
+		last := k[len(k)-1]
+		if last != 'p' && last != 'P' {
+			continue
+		}
+		q := "q"
+		if last == 'P' {
+			q = "Q"
+		}
+		ins := k[:len(k)-1] + q + k[len(k)-1:]
+		if _, d, err := refage.Bech32Decode(ins); err == nil && len(d) != 32 {
+			c18QPCache[identities] = [2]string{k, ins}
+			return k, ins
+		}
+	}
+	panic("no q-insertable key found")
+}
+
 func c18Scalar(idx int) []byte {
 	p := hx.ThePool()
 	if idx >= len(p.X25519) {
@@ -161,6 +195,21 @@ func c18Check(c c18Case, st *stats.Run) error {
 	}
 }
 
+// c18OtherFile: a valid key file of keys that no generated case uses.
+func c18OtherFile(identities bool) string {
+	var b strings.Builder
+	b.WriteString("# another file\n")
+	for i := 0; i < 3; i++ {
+		sc := hx.PRG(uint64(9000+i), 32)
+		if identities {
+			b.WriteString(refage.Bech32Encode("AGE-SECRET-KEY-", sc) + "\n")
+		} else {
+			b.WriteString(refage.Bech32Encode("age", refage.X25519Public(sc)) + "\r\n")
+		}
+	}
+	return b.String()
+}
+
 func c18CheckLib(c c18Case, want []kfLine, firstBad int) error {
 	data := c.bytes()
 	var got []string
@@ -169,12 +218,14 @@ func c18CheckLib(c c18Case, want []kfLine, firstBad int) error {
 	if c.Identities {
 		ids, e := age.ParseIdentities(bytes.NewReader(data))
 		err, isNil = e, ids == nil
+		age.ParseIdentities(strings.NewReader(c18OtherFile(true))) // the keys returned earlier are values of their own
 		for _, id := range ids {
 			got = append(got, fmt.Sprint(id))
 		}
 	} else {
 		rs, e := age.ParseRecipients(bytes.NewReader(data))
 		err, isNil = e, rs == nil
+		age.ParseRecipients(strings.NewReader(c18OtherFile(false)))
 		for _, r := range rs {
 			got = append(got, fmt.Sprint(r))
 		}
@@ -362,7 +413,7 @@ func substitute(t *rapid.T, s string, n int) string {
 func c18GenLine(t *rapid.T, identities, cli bool) kfLine {
 	idx := rapid.IntRange(0, 30).Draw(t, "keyIdx")
 	key := c18KeyString(identities, idx)
-	kinds := []string{"key", "key", "key", "key", "comment", "empty", "bad-huge-comment", "bad-huge-key", "bad-subst", "bad-trunc", "bad-lead-space", "bad-trail-space", "bad-tab", "bad-case", "bad-two-keys", "bad-ws-only", "bad-indented-comment", "bad-crcr", "bad-other-kind", "comment-with-key", "bad-garbage"}
+	kinds := []string{"key", "key", "key", "key", "comment", "empty", "bad-huge-comment", "bad-huge-key", "bad-subst", "bad-trunc", "bad-lead-space", "bad-trail-space", "bad-tab", "bad-case", "bad-two-keys", "bad-ws-only", "bad-indented-comment", "bad-crcr", "bad-other-kind", "comment-with-key", "bad-garbage", "bad-payload-length", "bad-q-inserted", "bad-github"}
 	if cli && !identities {
 		kinds = append(kinds, "ssh-ok-ed25519", "ssh-ok-rsa", "ssh-unsupported-ecdsa", "ssh-unsupported-small-rsa", "bad-ssh-truncated", "bad-ssh-extra", "bad-ssh-typeonly", "bad-long-line", "ssh-ok-ed25519", "bad-ssh-truncated")
 	}
@@ -433,6 +484,19 @@ func c18GenLine(t *rapid.T, identities, cli bool) kfLine {
 		l.Text, l.End, l.Bad = key+"\r", "\r\n", true
 	case "bad-other-kind":
 		l.Text, l.Bad = c18KeyString(!identities, idx), true
+	case "bad-payload-length":
+		// a correctly check-summed string of the right prefix whose payload is not 32 bytes
+		n := rapid.SampledFrom([]int{0, 1, 16, 31, 33, 34, 40, 64}).Draw(t, "payloadLen")
+		hrp := "age"
+		if identities {
+			hrp = "AGE-SECRET-KEY-"
+		}
+		l.Text, l.Bad = refage.Bech32Encode(hrp, append(append([]byte{}, c18Scalar(idx)...), hx.PRG(uint64(idx), 32)...)[:n]), true
+	case "bad-q-inserted":
+		_, l.Text = c18QP(identities)
+		l.Bad = true
+	case "bad-github":
+		l.Text, l.Bad = "github:"+rapid.SampledFrom([]string{"internal-deploy-bot", "someuser", "org/team-name"}).Draw(t, "ghuser"), true
 	case "bad-garbage":
 		l.Text, l.Bad = rapid.SampledFrom([]string{"garbage", "age1", "AGE-SECRET-KEY-1", "----BEGIN X-----", "ssh-ed25519", "github:user"}).Draw(t, "garbage"), true
 	case "bad-plugin-name":
@@ -547,6 +611,10 @@ func TestC18(t *testing.T) {
 		for _, ids := range []bool{true, false} {
 			k0, k1 := c18KeyString(ids, 0), c18KeyString(ids, 1)
 			bads := []string{k0[:len(k0)-1], " " + k0, k0 + " ", "\t" + k0, strings.ToLower(k0), strings.ToUpper(k0), k0 + " " + k1, " ", " # c", k0 + "\r", c18KeyString(!ids, 0), "x"}
+			_, qins := c18QP(ids)
+			hrp := map[bool]string{true: "AGE-SECRET-KEY-", false: "age"}[ids]
+			long := append(append([]byte{}, c18Scalar(0)...), 7)
+			bads = append(bads, qins, refage.Bech32Encode(hrp, long), refage.Bech32Encode(hrp, long[:31]), "github:some-user-name")
 			for _, b := range bads {
 				if b == k0 {
 					continue
@@ -572,7 +640,7 @@ func TestC18(t *testing.T) {
 				}
 			}
 		}
-		s.St.Exhaust("12 kinds of invalid line x every position of a 4-line file x LF/CRLF x identities/recipients", int64(n))
+		s.St.Exhaust("16 kinds of invalid line (incl. check-summed strings of 31- and 33-byte payloads, a q inserted before the final p, a github: line) x every position of a 4-line file x LF/CRLF x identities/recipients", int64(n))
 	}, check)
 	// exhaustive: every position of the public prefix of an identity line
 	// substituted or deleted, through the library and the CLI
